@@ -169,12 +169,24 @@ def make_adapter(casbin, initial, fail_after=None, is_async=False):
                 mp_.setdefault(tuple(o), list(n))
             l[:] = [mp_.get(tuple(x), x) for x in l]
 
+        def update_filtered_policies(self, sec, ptype, new_rules, field_index, *field_values):
+            """faithful: replaces the rules its own store selects by the new ones (set semantics) and returns the selection"""
+            self.log.append(f"update_filtered_policies/{ptype}/{enc_rules(new_rules)}/{field_index}/{enc_list([enc_str(v) for v in field_values])}")
+            l = self._l(sec, ptype)
+            old = [x for x in l if all(v == "" or x[field_index + i] == v for i, v in enumerate(field_values))]  # may raise IndexError
+            rest = [x for x in l if x not in old]
+            for r in new_rules:
+                if list(r) not in rest:
+                    rest.append(list(r))
+            l[:] = rest
+            return [list(x) for x in old]
+
     if is_async:
         # the async enforcer awaits its adapter
         class ARec(Rec):
             pass
 
-        for name in ["load_policy", "save_policy", "add_policy", "add_policies", "remove_policy", "remove_policies", "remove_filtered_policy", "update_policy", "update_policies"]:
+        for name in ["load_policy", "save_policy", "add_policy", "add_policies", "remove_policy", "remove_policies", "remove_filtered_policy", "update_policy", "update_policies", "update_filtered_policies"]:
             sync_fn = getattr(Rec, name)
 
             def mk(fn):
@@ -375,6 +387,8 @@ def lean_lines(op):
         return ["\t".join(["op", "update", enc_rule(op[1]), enc_rule(op[2])])]
     if n == "updatemany":
         return ["\t".join(["op", "updatemany", enc_rules(op[1]), enc_rules(op[2])])]
+    if n == "updatefiltered":
+        return ["\t".join(["op", "updatefiltered", enc_rules(op[1]), str(op[2]), enc_list([enc_str(v) for v in op[3]])])]
     if n == "removeread":
         return ["op\tremoveread\t" + op[1]]
     if n == "updateread":
@@ -471,6 +485,8 @@ def impl_call(e, op, is_async):
         return call("update_policy", list(op[1]), list(op[2]))
     if n == "updatemany":
         return call("update_policies", cp(op[1]), cp(op[2]))
+    if n == "updatefiltered":
+        return call("update_filtered_policies", cp(op[1]), op[2], *op[3])
     if n == "removeread":
         # the batch argument is the very object the read returned
         if op[1] == "p":
@@ -782,4 +798,35 @@ def op_alphabet(shape, level="full"):
     if level == "full":
         ops += [("update", P[0], P[2 if len(P) > 2 else 1]), ("update", P[0], P[0][:-1] + ["write"]), ("updatemany", [P[0]], [P[0][:-1] + ["write"]])]
         ops += [("clear",), ("build",), ("load", None), ("save",), ("updateread", "x")]
+        ops += updatefiltered_ops(shape)
     return ops
+
+
+def updatefiltered_kind(pre_p, op):
+    """which situation an update_filtered_policies call is in, given the p rules before it"""
+    news, idx, vals = [list(r) for r in op[1]], op[2], op[3]
+
+    def m(rule):
+        return all(v == "" or (idx + i < len(rule) and rule[idx + i] == v) for i, v in enumerate(vals))
+
+    sel = [r for r in pre_p if m(r)]
+    rest = [r for r in pre_p if not m(r)]
+    if not sel:
+        return "nothing-selected"
+    if not news:
+        return "no-new-rules"
+    if any(n in rest for n in news):
+        return "collision"
+    return "applies"
+
+
+def updatefiltered_ops(shape):
+    """update_filtered_policies: applies / new rule equal to a selected one / collision with an unselected rule /
+    no new rules / nothing selected / rule repeated in the batch"""
+    P, G, G2, R = universe(shape)
+    fresh = [P[0][:-1] + ["write"], P[1][:-1] + ["write"]]
+    sel = [P[0][0]]
+    other = [r for r in P if r[0] != P[0][0]]
+    return [("updatefiltered", [fresh[0]], 0, sel), ("updatefiltered", [fresh[0], P[0]], 0, sel), ("updatefiltered", [fresh[0], fresh[0]], 0, sel),
+            ("updatefiltered", [fresh[0]] + other[:1], 0, sel), ("updatefiltered", [], 0, sel), ("updatefiltered", [fresh[1]], 0, ["nobody"]),
+            ("updatefiltered", [fresh[1]], 1, [P[0][1]])]
